@@ -261,7 +261,10 @@ CUE_SUPPORT = ("wav", "wavex", "rifx", "aiff")
 INST_SUPPORT = ("wav", "wavex", "rifx", "aiff")
 CHMAP_SUPPORT = ("wavex", "rf64", "aiff", "caf")
 CAF_KEYS = {1: b"title", 2: b"copyright", 3: b"software", 4: b"artist", 5: b"comment", 6: b"date", 7: b"album", 8: b"license", 9: b"tracknumber", 16: b"genre"}
-AIFF_LIMIT = {1: 8190, 5: 8190, 4: 8191, 2: 8192, 3: 8180}
+HEADER_CAP = 100 * 1024    # psf_bump_header_allocation: the header (and every string read through it) must fit
+# how many bytes below the cap the estimate of a script's header counts as "within the limits" (the fixed chunks of the
+# container -- RIFF/fmt/fact/PEAK/ds64/COMM/desc --, the CAF 'free' padding and the 16 bytes of head room psf_binheader_writef wants)
+HEADER_MARGIN = 6400
 
 
 def cont_of(fmt):
@@ -338,18 +341,6 @@ def analyse(script, lines):
     return s
 
 
-def caf_fits(pairs):
-    """put_key_value of caf.c over the (type, text) pairs in slot order: which ones fit the 16 KiB buffer"""
-    idx, kept = 0, []
-    for ty, v in pairs:
-        k = CAF_KEYS[ty]
-        if idx + len(k) + len(v) + 2 > 16384 or idx + len(k) + len(v) + 2 >= 16384:
-            continue
-        idx += len(k) + len(v) + 2
-        kept.append((ty, v))
-    return kept
-
-
 def printable(b):
     return all(0x20 <= c <= 0x7e for c in b)
 
@@ -384,16 +375,12 @@ def expected(s, package):
                 if l:
                     exp.setdefault("late_str", set()).add(ty)      # set after the audio: may be ignored, must not come back altered
         stored = [(ty, v) for (ty, v, l) in slots if ty in sup]
-        if c in WAVLIKE and any(len(v) >= 2046 for ty, v in stored):
-            classes.add("info-2046")
+        # no per-item limits any more (the readers take their buffers from the chunk sizes, the CAF writer from the string storage):
+        # the only limit left is the header cache, below
         if c == "aiff":
-            if any(len(v) >= AIFF_LIMIT[ty] for ty, v in stored):
-                classes.add("aiff-8190")
             if any(ty in (2, 3) and not printable(v) for ty, v in stored):
                 classes.add("aiff-sanitize")
-        if c == "caf" and len(caf_fits([(ty, v) for (ty, v, l) in slots if not l])) + len(caf_fits([(ty, v) for (ty, v, l) in slots if l])) != len(slots):
-            classes.add("caf-16k")
-    total = sum(len(v) + 10 for (ty, v, l) in slots)
+    total = sum(len(v) + 14 for (ty, v, l) in slots)       # id + size + NUL + pad; CAF: key of at most 11 bytes + 2 NULs
     # bext / cart
     for kind, sup, fixed in (("bext", BEXT_SUPPORT, BEXT_FIXED), ("cart", CART_SUPPORT, CART_FIXED)):
         acc = [(late, val) for (k, late, ok, val, raw, n) in s.calls if k == kind and ok]
@@ -443,7 +430,7 @@ def expected(s, package):
     acc = [val for (k, late, ok, val, raw, n) in s.calls if k == "chmap" and ok]
     if acc and c in CHMAP_SUPPORT:
         exp["chmap"] = acc[-1]
-    if total >= 49000:
+    if total >= HEADER_CAP - HEADER_MARGIN:
         classes.add("header-cache")
     return exp, classes
 
